@@ -574,7 +574,7 @@ fn build(v: &V, env: &Env) -> AnyView {
 fn has_local(kids: &[V]) -> bool {
     kids.iter().any(|k| match k {
         V::LocalRead(_) | V::LocalAwait(_) => true,
-        V::El(_, k) | V::Tup(k) | V::List(k) | V::Eb(k) => has_local(k),
+        V::El(_, k) | V::Island(_, k) | V::Tup(k) | V::List(k) | V::Eb(k) => has_local(k),
         _ => false,
     })
 }
@@ -586,6 +586,8 @@ fn build_resolved(v: &V) -> AnyView {
     match v {
         V::Text(s) => s.clone().into_any(),
         V::El(tag, kids) => el(tag, all(kids)),
+        V::Island(true, kids) => tachys::html::islands::Island::new("isl", all(kids)).into_any(),
+        V::Island(false, kids) => tachys::html::islands::IslandChildren::new(all(kids)).into_any(),
         V::Tup(kids) => all(kids),
         V::List(kids) => kids.iter().map(build_resolved).collect::<Vec<AnyView>>().into_any(),
         V::Suspend(_, kids) | V::Await(_, kids) | V::Eb(kids) => all(kids),
@@ -612,7 +614,7 @@ fn has_eb(v: &V) -> bool {
     match v {
         V::Text(_) => false,
         V::Eb(_) => true,
-        V::El(_, k) | V::Tup(k) | V::List(k) | V::Suspend(_, k) | V::Await(_, k) => k.iter().any(has_eb),
+        V::El(_, k) | V::Island(_, k) | V::Tup(k) | V::List(k) | V::Suspend(_, k) | V::Await(_, k) => k.iter().any(has_eb),
         V::ResSuspend(_, k) | V::ResRead(_, _, k) => k.iter().any(has_eb),
         V::LocalRead(_) | V::LocalAwait(_) => false,
         V::Suspense { kids, .. } => kids.iter().any(has_eb),
@@ -625,7 +627,7 @@ fn has_late_read(c: Ctx, v: &V) -> bool {
     let nest = |c: Ctx| if c == Ctx::Top { Ctx::Top } else { Ctx::Nested };
     match v {
         V::Text(_) | V::LocalRead(_) | V::LocalAwait(_) => false,
-        V::El(_, k) | V::Tup(k) | V::List(k) | V::Eb(k) => k.iter().any(|x| has_late_read(c, x)),
+        V::El(_, k) | V::Island(_, k) | V::Tup(k) | V::List(k) | V::Eb(k) => k.iter().any(|x| has_late_read(c, x)),
         V::Suspend(_, k) | V::ResSuspend(_, k) => k.iter().any(|x| has_late_read(nest(c), x)),
         V::ResRead(_, _, k) => c == Ctx::Nested || k.iter().any(|x| has_late_read(nest(c), x)),
         V::Suspense { kids, .. } => kids.iter().any(|x| has_late_read(Ctx::Direct, x)),
@@ -637,7 +639,7 @@ fn late_reads(c: Ctx, v: &V, out: &mut Vec<usize>) {
     let nest = |c: Ctx| if c == Ctx::Top { Ctx::Top } else { Ctx::Nested };
     match v {
         V::Text(_) | V::LocalRead(_) | V::LocalAwait(_) => {}
-        V::El(_, k) | V::Tup(k) | V::List(k) | V::Eb(k) => k.iter().for_each(|x| late_reads(c, x, out)),
+        V::El(_, k) | V::Island(_, k) | V::Tup(k) | V::List(k) | V::Eb(k) => k.iter().for_each(|x| late_reads(c, x, out)),
         V::Suspend(_, k) | V::ResSuspend(_, k) => k.iter().for_each(|x| late_reads(nest(c), x, out)),
         V::ResRead(_, f, k) => {
             if c == Ctx::Nested {
@@ -657,7 +659,7 @@ fn res_reads(v: &V, out: &mut Vec<(char, usize)>) {
             out.push((*kind, *f));
             k.iter().for_each(|x| res_reads(x, out))
         }
-        V::El(_, k) | V::Tup(k) | V::List(k) | V::Eb(k) | V::Suspend(_, k) | V::ResSuspend(_, k) | V::Await(_, k) => {
+        V::El(_, k) | V::Island(_, k) | V::Tup(k) | V::List(k) | V::Eb(k) | V::Suspend(_, k) | V::ResSuspend(_, k) | V::Await(_, k) => {
             k.iter().for_each(|x| res_reads(x, out))
         }
         V::Suspense { kids, .. } => kids.iter().for_each(|x| res_reads(x, out)),
@@ -667,7 +669,7 @@ fn res_reads(v: &V, out: &mut Vec<(char, usize)>) {
 fn has_nested_suspend(c: Ctx, v: &V) -> bool {
     match v {
         V::Text(_) => false,
-        V::El(_, k) | V::Tup(k) | V::List(k) | V::Eb(k) => k.iter().any(|x| has_nested_suspend(c, x)),
+        V::El(_, k) | V::Island(_, k) | V::Tup(k) | V::List(k) | V::Eb(k) => k.iter().any(|x| has_nested_suspend(c, x)),
         V::Suspend(_, k) | V::ResSuspend(_, k) => match c {
             Ctx::Top => k.iter().any(|x| has_nested_suspend(Ctx::Top, x)),
             Ctx::Direct => k.iter().any(|x| has_nested_suspend(Ctx::Nested, x)),
@@ -699,7 +701,7 @@ fn direct_deps(v: &V, out: &mut Vec<usize>) {
             out.push(*k);
             kids.iter().for_each(|x| direct_deps(x, out))
         }
-        V::El(_, k) | V::Tup(k) | V::List(k) | V::Eb(k) => k.iter().for_each(|x| direct_deps(x, out)),
+        V::El(_, k) | V::Island(_, k) | V::Tup(k) | V::List(k) | V::Eb(k) => k.iter().for_each(|x| direct_deps(x, out)),
     }
 }
 
@@ -708,7 +710,7 @@ fn region_token(kids: &[V]) -> Option<String> {
     for k in kids {
         match k {
             V::Text(s) => return Some(s.clone()),
-            V::El(_, k) | V::Tup(k) | V::List(k) | V::Eb(k) => {
+            V::El(_, k) | V::Island(_, k) | V::Tup(k) | V::List(k) | V::Eb(k) => {
                 if let Some(t) = region_token(k) {
                     return Some(t);
                 }
@@ -724,7 +726,7 @@ fn region_token(kids: &[V]) -> Option<String> {
 fn facts(v: &V, need: &Vec<usize>, region: &Option<Option<String>>, f: &mut Facts) {
     match v {
         V::Text(s) => f.content.push((s.clone(), need.clone())),
-        V::El(_, k) | V::Tup(k) | V::List(k) | V::Eb(k) => k.iter().for_each(|x| facts(x, need, region, f)),
+        V::El(_, k) | V::Island(_, k) | V::Tup(k) | V::List(k) | V::Eb(k) => k.iter().for_each(|x| facts(x, need, region, f)),
         V::Suspend(k, kids) | V::Await(k, kids) | V::ResSuspend(k, kids) | V::ResRead(_, k, kids) => {
             let mut need2 = need.clone();
             need2.push(*k);
@@ -741,7 +743,7 @@ fn facts(v: &V, need: &Vec<usize>, region: &Option<Option<String>>, f: &mut Fact
             fn all_tokens(v: &V, out: &mut Vec<String>) {
                 match v {
                     V::Text(s) => out.push(s.clone()),
-                    V::El(_, k) | V::Tup(k) | V::List(k) | V::Eb(k) | V::Suspend(_, k) | V::Await(_, k)
+                    V::El(_, k) | V::Island(_, k) | V::Tup(k) | V::List(k) | V::Eb(k) | V::Suspend(_, k) | V::Await(_, k)
                     | V::ResSuspend(_, k) | V::ResRead(_, _, k) => k.iter().for_each(|x| all_tokens(x, out)),
                     V::Suspense { kids, .. } => kids.iter().for_each(|x| all_tokens(x, out)),
                     V::LocalRead(_) | V::LocalAwait(_) => {}
@@ -835,6 +837,83 @@ struct Case {
     /// every base future of the case; `ended`: the stream has returned `Ready(None)` once
     all_futs: Vec<usize>,
     ended: bool,
+    /// the `_branching` streams; the nonce provided to the view (random: the observable shows `NONCE`)
+    branching: bool,
+    nonce: Option<String>,
+}
+
+/// the observable form of a chunk: the random nonce as `NONCE`, `{:?}` of a `TypeId` (AnyView's branch id) as `T`
+fn norm(c: &Case, s: &str) -> String {
+    let mut s = match &c.nonce {
+        Some(n) => s.replace(n.as_str(), "NONCE"),
+        None => s.to_string(),
+    };
+    if c.branching {
+        let mut out = String::new();
+        while let Some(p) = s.find("TypeId(") {
+            let Some(q) = s[p..].find(')') else { break };
+            out.push_str(&s[..p]);
+            out.push('T');
+            s = s[p + q + 1..].to_string();
+        }
+        out.push_str(&s);
+        s = out;
+    }
+    s
+}
+
+/// branching modes, the printed observable: every maximal run of branch marker comments as one `<!--b-->` (the model
+/// knows where markers are, not their ids: `{:?}` of a `TypeId`, `0`/`1` of an `Either`, …; the ids and their nesting
+/// are checked on the real text by `strip_branches`)
+fn collapse_branches(s: &str) -> String {
+    let mut out = String::new();
+    let mut rest = s;
+    let mut in_run = false;
+    loop {
+        if rest.starts_with("<!--bo-") || rest.starts_with("<!--bc-") {
+            let Some(q) = rest.find("-->") else { break };
+            if !in_run {
+                out.push_str("<!--b-->");
+                in_run = true;
+            }
+            rest = &rest[q + 3..];
+            continue;
+        }
+        let Some(ch) = rest.chars().next() else { break };
+        in_run = false;
+        out.push(ch);
+        rest = &rest[ch.len_utf8()..];
+    }
+    out.push_str(rest);
+    out
+}
+
+/// the document without branch marker comments; None if they are not properly nested
+fn strip_branches(s: &str) -> Option<String> {
+    let mut out = String::new();
+    let mut stack: Vec<String> = vec![];
+    let mut rest = s;
+    loop {
+        let (po, pc) = (rest.find("<!--bo-"), rest.find("<!--bc-"));
+        let (p, open) = match (po, pc) {
+            (None, None) => break,
+            (Some(a), None) => (a, true),
+            (None, Some(b)) => (b, false),
+            (Some(a), Some(b)) => if a < b { (a, true) } else { (b, false) },
+        };
+        out.push_str(&rest[..p]);
+        let after = &rest[p + 7..];
+        let q = after.find("-->")?;
+        let id = after[..q].to_string();
+        if open {
+            stack.push(id)
+        } else if stack.pop() != Some(id) {
+            return None;
+        }
+        rest = &after[q + 3..];
+    }
+    out.push_str(rest);
+    if stack.is_empty() { Some(out) } else { None }
 }
 
 thread_local! {
@@ -860,11 +939,19 @@ fn drop_case() {
 
 fn start(level_b: bool, free: bool, mode: &str, d0: &str, toks: &[&str]) -> String {
     drop_case();
-    let ooo = match mode {
-        "io" => false,
-        "ooo" => true,
+    // <io|ooo>[b][n]: b = the `_branching` streams (branch marker comments), n = a nonce is provided (leptos `nonce`)
+    let (base, flags) = if let Some(r) = mode.strip_prefix("ooo") { ("ooo", r) } else if let Some(r) = mode.strip_prefix("io") { ("io", r) } else { return "bad-op".into() };
+    let ooo = base == "ooo";
+    let (branching, with_nonce) = match flags {
+        "" => (false, false),
+        "b" => (true, false),
+        "n" => (false, true),
+        "bn" => (true, true),
         _ => return "bad-op".into(),
     };
+    if !level_b && (branching || with_nonce) {
+        return "bad-op".into();
+    }
     let Some(done0) = (if d0 == "-" { Some(vec![]) } else { d0.split(',').map(|x| x.parse::<usize>().ok()).collect() })
     else {
         return "bad-op".into();
@@ -881,17 +968,23 @@ fn start(level_b: bool, free: bool, mode: &str, d0: &str, toks: &[&str]) -> Stri
             return "bad-op".into();
         }
         let root = V::Tup(vs);
+        let mut nonce = None;
         let stream = owner.with(|| {
+            if with_nonce {
+                leptos::nonce::provide_nonce();
+                nonce = leptos::nonce::use_nonce().map(|n| n.to_string());
+            }
             let mut reads = vec![];
             res_reads(&root, &mut reads);
             for (kind, k) in reads {
                 let _ = env.res(kind, k);
             }
             let view = build(&root, &env);
-            if ooo {
-                view.to_html_stream_out_of_order()
-            } else {
-                view.to_html_stream_in_order()
+            match (ooo, branching) {
+                (true, false) => view.to_html_stream_out_of_order(),
+                (false, false) => view.to_html_stream_in_order(),
+                (true, true) => view.to_html_stream_out_of_order_branching(),
+                (false, true) => view.to_html_stream_in_order_branching(),
             }
         });
         let reference = new_owner().with(|| build_resolved(&root).to_html());
@@ -903,7 +996,7 @@ fn start(level_b: bool, free: bool, mode: &str, d0: &str, toks: &[&str]) -> Stri
         needed_futs(std::slice::from_ref(&root), &mut all_futs);
         Case {
             env, owner, stream: Some(Box::pin(stream)), ooo, level_b, reference, raw: String::new(), facts: f,
-            known_class, dead: false, finished: false, free, all_futs, ended: false,
+            known_class, dead: false, finished: false, free, all_futs, ended: false, branching, nonce,
         }
     } else {
         let Some(ops) = parse_ops(toks, &mut i) else { return "bad-op".into() };
@@ -920,6 +1013,7 @@ fn start(level_b: bool, free: bool, mode: &str, d0: &str, toks: &[&str]) -> Stri
         Case {
             env, owner, stream: Some(Box::pin(stream)), ooo, level_b, reference: doc_of(&ops, ooo), raw: String::new(),
             facts: Facts::default(), known_class: false, dead: false, finished: false, free, all_futs, ended: false,
+            branching: false, nonce: None,
         }
     };
     CASE.with(|c| *c.borrow_mut() = Some(case));
@@ -1063,10 +1157,12 @@ fn op(line: &str) -> String {
                     }
                 }
                 Ok(Poll::Ready(Some(s))) => {
+                    let s = norm(c, &s);
                     c.finished = false;
                     c.raw.push_str(&s);
                     let empty = if s.is_empty() { Some("fail empty-chunk".to_string()) } else { None };
-                    let o = if free { "-".to_string() } else { format!("item {}", hex(s.as_bytes())) };
+                    let shown = if c.branching { collapse_branches(&s) } else { s.clone() };
+                    let o = if free { "-".to_string() } else { format!("item {}", hex(shown.as_bytes())) };
                     match empty.or_else(|| poll_oracle(c)) {
                         Some(v) => format!("{o} ## {v}"),
                         None => o,
@@ -1080,16 +1176,26 @@ fn op(line: &str) -> String {
             let doc = if c.ooo { apply_scripts(&c.raw) } else { c.raw.clone() };
             match *chk {
                 "check" => {
+                    let plain = if c.branching { strip_branches(&doc) } else { Some(doc.clone()) };
                     let v = if !c.finished {
                         "fail not-terminated"
-                    } else if doc == c.reference {
+                    } else if c.nonce.is_some() && count(&c.raw, "<script") != count(&c.raw, "<script nonce=\"NONCE\">") {
+                        // under a nonce-based CSP the browser does not run an inline script without the nonce
+                        "fail script-without-nonce"
+                    } else if plain.is_none() {
+                        "fail branch-markers-unbalanced"
+                    } else if plain.as_deref() == Some(c.reference.as_str()) {
                         "ok"
                     } else {
                         "fail doc-mismatch"
                     };
-                    format!("doc {} ## {v}", hex(doc.as_bytes()))
+                    let shown = if c.branching { collapse_branches(&doc) } else { doc.clone() };
+                    format!("doc {} ## {v}", hex(shown.as_bytes()))
                 }
-                "nocheck" => format!("doc {}", hex(doc.as_bytes())),
+                "nocheck" => {
+                    let shown = if c.branching { collapse_branches(&doc) } else { doc.clone() };
+                    format!("doc {}", hex(shown.as_bytes()))
+                }
                 _ => "bad-op".into(),
             }
         }),
@@ -1138,6 +1244,8 @@ fn ser_views(vs: &[V], out: &mut Vec<String>) {
                 continue;
             }
             V::El(t, k) => (format!("e{t}["), k),
+            V::Island(true, k) => ("I[".into(), k),
+            V::Island(false, k) => ("C[".into(), k),
             V::Tup(k) => ("q[".into(), k),
             V::List(k) => ("l[".into(), k),
             V::Suspend(f, k) => (format!("s{f}["), k),
@@ -1201,7 +1309,12 @@ impl Gen {
             2 => {
                 let tag = *self.r.pick(&["div", "section", "p", "span"]);
                 let n = self.r.range(1, 3);
-                V::El(tag.into(), (0..n).map(|_| self.view(depth, max_f, ctx, allow_known)).collect())
+                let kids = (0..n).map(|_| self.view(depth, max_f, ctx, allow_known)).collect();
+                match self.r.below(8) {
+                    0 => V::Island(true, kids),
+                    1 => V::Island(false, kids),
+                    _ => V::El(tag.into(), kids),
+                }
             }
             3 => {
                 let n = self.r.range(1, 3);
@@ -1444,7 +1557,7 @@ fn async_nodes(vs: &[V]) -> usize {
             V::Text(_) => 0,
             V::Suspend(_, k) => 1 + async_nodes(k),
             V::Await(_, k) => 2 + async_nodes(k),
-            V::El(_, k) | V::Tup(k) | V::List(k) | V::Eb(k) | V::ResRead(_, _, k) => async_nodes(k),
+            V::El(_, k) | V::Island(_, k) | V::Tup(k) | V::List(k) | V::Eb(k) | V::ResRead(_, _, k) => async_nodes(k),
             V::ResSuspend(_, k) => 1 + async_nodes(k),
             V::LocalRead(_) | V::LocalAwait(_) => 1,
             V::Suspense { kids, .. } => 1 + async_nodes(kids),
@@ -1458,14 +1571,14 @@ fn needed_futs(vs: &[V], out: &mut Vec<usize>) {
     fn local_now(kids: &[V]) -> bool {
         kids.iter().any(|k| match k {
             V::LocalRead(_) => true,
-            V::El(_, k) | V::Tup(k) | V::List(k) | V::Eb(k) => local_now(k),
+            V::El(_, k) | V::Island(_, k) | V::Tup(k) | V::List(k) | V::Eb(k) => local_now(k),
             _ => false,
         })
     }
     fn local_wait(kids: &[V]) -> Option<usize> {
         kids.iter().find_map(|k| match k {
             V::LocalAwait(f) => Some(*f),
-            V::El(_, k) | V::Tup(k) | V::List(k) | V::Eb(k) => local_wait(k),
+            V::El(_, k) | V::Island(_, k) | V::Tup(k) | V::List(k) | V::Eb(k) => local_wait(k),
             _ => None,
         })
     }
@@ -1476,7 +1589,7 @@ fn needed_futs(vs: &[V], out: &mut Vec<usize>) {
                 out.push(*k);
                 needed_futs(kids, out)
             }
-            V::El(_, k) | V::Tup(k) | V::List(k) | V::Eb(k) => needed_futs(k, out),
+            V::El(_, k) | V::Island(_, k) | V::Tup(k) | V::List(k) | V::Eb(k) => needed_futs(k, out),
             V::Suspense { kids, .. } => {
                 if local_now(kids) {
                 } else if let Some(f) = local_wait(kids) {
@@ -1497,7 +1610,7 @@ fn futs_of_views(vs: &[V], out: &mut Vec<usize>) {
                 out.push(*k);
                 futs_of_views(kids, out)
             }
-            V::El(_, k) | V::Tup(k) | V::List(k) | V::Eb(k) => futs_of_views(k, out),
+            V::El(_, k) | V::Island(_, k) | V::Tup(k) | V::List(k) | V::Eb(k) => futs_of_views(k, out),
             V::ResSuspend(f, kids) | V::ResRead(_, f, kids) => {
                 out.push(*f);
                 futs_of_views(kids, out)
